@@ -91,7 +91,7 @@ class SymNd(rnp.ndarray):
     def __getitem__(self, k):
         if self._is_mask(k):
             r = ctx.cur()
-            if r is not None and r.decisions is not None:
+            if r is not None and r.decisions is not None and getattr(r, "fork_masks", True):
                 # fork mode: decide every mask element, then select for real (the length becomes concrete on this path)
                 conc = rnp.array([bool(e) for e in k.reshape(-1)], dtype=bool).reshape(k.shape)
                 return rnp.ndarray.__getitem__(self, conc)
@@ -935,6 +935,92 @@ def clone(f, builtins_extra=None, importer=None, **over):
     return c
 
 
+class SymDict(dict):
+    """dict whose keys may be (tuples of) symbolic values: membership and lookup compare the key with every stored key
+    (forking on the comparison in fork mode), so module-level memo tables keep working on symbolic runs"""
+
+    def __init__(self, *a, **k):
+        dict.__init__(self, *a, **k)
+        self._sym = []       # [(key, value)] for keys that are not hashable
+
+    @staticmethod
+    def _issym(key):
+        return is_sym(key) or (isinstance(key, tuple) and any(SymDict._issym(x) for x in key))
+
+    @staticmethod
+    def _same(a, b):
+        if isinstance(a, tuple) or isinstance(b, tuple):
+            if not (isinstance(a, tuple) and isinstance(b, tuple) and len(a) == len(b)):
+                return False
+            return all(SymDict._same(x, y) for x, y in zip(a, b))
+        if is_sym(a) or is_sym(b):
+            try:
+                return bool(plain(a) == plain(b))     # symbolic comparison: decided by forking
+            except TypeError:
+                return False
+        try:
+            return a == b
+        except Exception:
+            return False
+
+    def _find(self, key):
+        for i, (k, v) in enumerate(self._sym):
+            if SymDict._same(key, k):
+                return ("s", i)
+        if SymDict._issym(key):
+            for k in list(dict.keys(self)):
+                if SymDict._same(key, k):
+                    return ("d", k)
+            return None
+        return ("d", key) if dict.__contains__(self, key) else None
+
+    def __contains__(self, key):
+        return self._find(key) is not None
+
+    def __getitem__(self, key):
+        f = self._find(key)
+        if f is None:
+            raise KeyError(key)
+        return self._sym[f[1]][1] if f[0] == "s" else dict.__getitem__(self, f[1])
+
+    def get(self, key, default=None):
+        f = self._find(key)
+        if f is None:
+            return default
+        return self._sym[f[1]][1] if f[0] == "s" else dict.__getitem__(self, f[1])
+
+    def __setitem__(self, key, value):
+        if SymDict._issym(key):
+            f = self._find(key)
+            if f is not None and f[0] == "s":
+                self._sym[f[1]] = (key, value)
+            elif f is not None:
+                dict.__setitem__(self, f[1], value)
+            else:
+                self._sym.append((key, value))
+        else:
+            dict.__setitem__(self, key, value)
+
+    def setdefault(self, key, default=None):
+        if key in self:
+            return self[key]
+        self[key] = default
+        return default
+
+    def __len__(self):
+        return dict.__len__(self) + len(self._sym)
+
+    def pop(self, key, *d):
+        f = self._find(key)
+        if f is None:
+            if d:
+                return d[0]
+            raise KeyError(key)
+        if f[0] == "s":
+            return self._sym.pop(f[1])[1]
+        return dict.pop(self, f[1])
+
+
 # ----------------------------------------------------------------------------- whole-module cloning
 def clone_module(mod, overrides, subst=None, builtins_extra=None, importer=None):
     """Every function of `mod` (module level and methods of its classes) re-created over ONE shared namespace in which
@@ -963,11 +1049,14 @@ def clone_module(mod, overrides, subst=None, builtins_extra=None, importer=None)
             return o
         if isinstance(o, dict):
             import copy as _cp
-            new = _cp.copy(o)          # keeps the container type (OrderedDict, defaultdict ...)
-            try:
-                new.clear()
-            except Exception:
-                new = {}
+            if type(o) is dict:
+                new = SymDict()        # module-level memo tables may be keyed by symbolic values on a symbolic run
+            else:
+                new = _cp.copy(o)      # keeps the container type (OrderedDict, defaultdict ...)
+                try:
+                    new.clear()
+                except Exception:
+                    new = {}
             for k, v in o.items():
                 new[sub(k, depth + 1) if not isinstance(k, (str, int, float, bool, type(None), tuple)) else k] = sub(v, depth + 1)
             return new
